@@ -21,9 +21,8 @@ ASSUMPTIONS = [
     "the reading of the property used by the direct law check takes 'any letter case' as ASCII case (a token spelled with U+212A KELVIN "
     "SIGN or any other non-ASCII character is no identifier; the code rejects it since fix 9992710)",
     "whether 'LicenseRef-x+' is well-formed is not fixed by the property text: both readings are allowed",
-    "an EMPTY LicenseRef idstring ('LicenseRef-', 'licenseref-+') is accepted by the code and by LicSpec.lic_canon although SPDX Annex D "
-    "has idstring = 1*(...): the property text does not demand non-emptiness; C19_simple_ids_vs_spdx_proper states exactly this "
-    "difference (judgement call D37: law.l.strictref / match_ref_empty are scheduled only once known_findings.txt registers it)",
+    "the idstring of a LicenseRef is not empty (SPDX Annex D: 1*(...)): 'LicenseRef-' and 'licenseref-+' are rejected since fix 8e6ceae; "
+    "law.l.strictref checks it with such a token in every operand position",
     "'GPL-2.0++' is license-id '+' with the deprecated table id 'GPL-2.0+': well-formed in SPDX proper, accepted",
     "the argument is a str (an int raises AttributeError, bytes TypeError: outside the domain); every str, lone surrogates included, is inside",
     "first rejected nesting depth per shape (law.l.evaldepth) is recorded for CPython 3.12 only; on another interpreter the law checks "
@@ -133,7 +132,7 @@ def mutate(rng, s):
 def valid_simple(rng):
     lic, exc = tables()
     k = rng.random()
-    if k < 0.2: t = rref(rng, rng.choice(REFS))
+    if k < 0.2: t = rref(rng, rng.choice([r for r in REFS if r != "LicenseRef-"]))
     elif k < 0.6: t = rcase(rng, rng.choice(SHORT))
     else: t = rcase(rng, rng.choice(lic))
     if rng.random() < 0.2: t += "+"
@@ -327,23 +326,19 @@ def streams(rng, tier):
         s = "".join(parts)
         out.append(Case("arbitrary-codepoints", "l.canon", [s]))
         if rng.random() < 0.3: out.append(Case("spec-vs-spec", "l.spec", [s]))
-    # judgement call D37 (empty LicenseRef idstring): active only once known_findings.txt registers the matcher
-    if _registered("match_ref_empty"):
-        for s in ["LicenseRef-", "licenseref-+", "MIT OR LICENSEREF-", "(LicenseRef-) AND gd", "LicenseRef- WITH llgpl", "LicenseRef-a", "LicenseRef-.", "MIT"]:
-            out.append(Case("law-strictref", "law.l.strictref", [s], kind="law"))
-        for _ in range(100 if q else 2000):
-            s = valid_expr(rng, 0, 2)
-            toks = tokenize(s); i = rng.randrange(len(toks))
-            if toks[i] not in "()" and toks[i].lower() not in ("and", "or", "with") and (i == 0 or toks[i - 1].lower() != "with"):
-                toks[i] = rref(rng, "LicenseRef-") + rng.choice(["", "", "+"])
-            out.append(Case("law-strictref", "law.l.strictref", [" ".join(toks)], kind="law"))
+    # the idstring of a LicenseRef is not empty (fix 8e6ceae): an empty-idstring ref in every operand position of a valid expression
+    for s in ["LicenseRef-", "licenseref-+", "MIT OR LICENSEREF-", "(LicenseRef-) AND gd", "LicenseRef- WITH llgpl", "LicenseRef-a", "LicenseRef-.", "MIT"]:
+        out.append(Case("law-strictref", "law.l.strictref", [s], kind="law")); out.append(Case("strictref", "l.canon", [s]))
+    for _ in range(150 if q else 3000):
+        s = valid_expr(rng, 0, rng.choice([0, 1, 2, 3]))
+        toks = tokenize(s)
+        cand = [i for i, t in enumerate(toks) if t not in "()" and t.lower() not in ("and", "or", "with") and (i == 0 or toks[i - 1].lower() != "with")]
+        i = rng.choice(cand)
+        toks[i] = rref(rng, "LicenseRef-") + rng.choice(["", "", "+"])
+        s = " ".join(toks)
+        out.append(Case("law-strictref", "law.l.strictref", [s], kind="law")); out.append(Case("strictref", "l.canon", [s]))
+        if rng.random() < 0.3: out.append(Case("spec-vs-spec", "l.spec", [s]))
     return out
-
-
-def _registered(matcher):
-    import core
-    try: return any(f["matcher"] == matcher for f in core.load_findings("C19"))
-    except Exception: return False
 
 
 def compare(case, impl, model):
@@ -390,11 +385,3 @@ def match_deep(case, impl, model):
     r = _spec(case.args[0])
     if r is None or r[1] <= 100: return False
     return model == "E" if r[1] > 200 else (isinstance(model, str) and model == "L|" + r[0])
-
-
-def match_ref_empty(case, impl, model):
-    """Proposed known finding D37 (judgement call): a LicenseRef with an EMPTY idstring ('LicenseRef-', 'licenseref-+') is accepted, SPDX
-    Annex D has idstring = 1*(ALPHA / DIGIT / '-' / '.').  Instance = the strict law on an input that has such a token, and the law's own
-    message that the implementation returned a value for it."""
-    return (case.cmd == "law.l.strictref" and bool(gen_lic.empty_ref_tokens(case.args[0]))
-            and isinstance(impl, str) and impl.startswith("empty LicenseRef idstring accepted:"))
